@@ -11,13 +11,13 @@ from .. import kf
 ID = "C01"
 NEEDS_MODEL = True
 LEVEL = "exploration"
-N = {"quick": 1600, "thorough": 40000}
+N = {"quick": 3200, "thorough": 40000}
 STRATA = [None, None, None, "union3", "take3", "rank0", "reduce0", "contracted-outer",
           "broadcast", "sumprod"]
 
 
 def classify(spec, problems):
-    return kf.kf1_take_in_sum(spec, problems) or kf.classify_name_error(spec, problems)
+    return kf.classify_plain(spec, problems)
 
 
 def gen_cases(tier, seed, shard, nshards):
